@@ -121,6 +121,9 @@ void harness_copy(void)
 	u8 out[OUTPUT_BUFFER_SIZE];
 	unsigned i, cur, c, len, off, d;
 	size_t n;
+#ifdef ALIGN0
+	skip = 0;     /* the code sees the stream only through read_bits(n): alignment cannot matter to it (pm2.cmd.byte/fields run at any alignment) */
+#endif
 	ASSUME(skip < 8 && sym >= 8 && sym <= 22 && t < 8 && pos0 < RING_BUFFER_SIZE && probe < RING_BUFFER_SIZE && idx < 16 && tstate >= 1 && tstate <= 4 && remaining >= 1 && remaining <= 4096);
 	for (i = 0; i < BS_N; ++i) bs_data[i] = data[i];
 	bs_bits = 8 * BS_N; bs_pos = skip;
